@@ -342,7 +342,7 @@ func c03hdr(p *Program, r *Report, rule string) {
 		get := func(name string) AV {
 			st := hv.T.Underlying().(*types.Struct)
 			for i := 0; i < st.NumFields(); i++ {
-				if st.Field(i).Name() == name {
+				if fieldName(st.Field(i)) == name {
 					return hv.Fields[i]
 				}
 			}
@@ -634,7 +634,7 @@ func isParamOf(v ssa.Value, fn *ssa.Function, name string) bool {
 	for i := 0; i < 4; i++ {
 		switch x := v.(type) {
 		case *ssa.Parameter:
-			return fn != nil && x.Parent() == fn && x.Name() == name
+			return fn != nil && x.Parent() == fn && paramName(x) == name
 		case *ssa.MakeInterface:
 			v = x.X
 		case *ssa.ChangeInterface:
@@ -716,9 +716,9 @@ func c03taint(p *Program, r *Report, rule string) {
 func sliceBaseName(x *ssa.Slice) string {
 	switch b := x.X.(type) {
 	case *ssa.FieldAddr:
-		return fieldOf(b).Name()
+		return fieldName(fieldOf(b))
 	case *ssa.Parameter:
-		return "param " + b.Name()
+		return "param " + paramName(b)
 	case *ssa.Phi:
 		return "local " + b.Comment
 	}
@@ -754,7 +754,7 @@ func valueDerives(v ssa.Value, pred func(ssa.Value) bool, depth int) bool {
 // function is handleControl (bound established by C03.ctl's table), or (b) a comparison between the
 // bound (modulo conversions) and len(base)/a constant dominates the slice instruction.
 func boundGuarded(p *Program, fn *ssa.Function, sl *ssa.Slice, bnd ssa.Value) (bool, string) {
-	if fa, ok := sl.X.(*ssa.FieldAddr); ok && fieldOf(fa).Name() == "readControlBuf" && p.FuncName(fn) == "Conn.handleControl" {
+	if fa, ok := sl.X.(*ssa.FieldAddr); ok && fieldName(fieldOf(fa)) == "readControlBuf" && p.FuncName(fn) == "Conn.handleControl" {
 		return true, "base is the fixed control buffer; bound payloadLength∈[0,125] established by the C03.ctl table before this slice"
 	}
 	strip := func(v ssa.Value) ssa.Value {
